@@ -119,6 +119,10 @@ pub fn run_conformance(scns: Vec<DScn>) -> Conf {
 
 /// a small conformance batch for the E1 checks' `traces_validated_against_impl`
 pub fn quick_conformance(ack: bool, closure: bool) -> Conf {
+    run_conformance(quick_conformance_scenarios(ack, closure))
+}
+
+pub fn quick_conformance_scenarios(ack: bool, closure: bool) -> Vec<DScn> {
     let mut cfg = cfg_base("conf");
     cfg.ack = ack;
     cfg.closure = closure;
@@ -143,7 +147,41 @@ pub fn quick_conformance(ack: bool, closure: bool) -> Conf {
         l.src_symlink = true;
         v.push(l);
     }
-    run_conformance(v)
+    v
+}
+
+/// every real-daemon scenario any check runs (replay files name their scenario)
+pub fn all_scenarios() -> Vec<DScn> {
+    let mut v = c11_scenarios(Tier::Thorough);
+    v.extend(conformance_scenarios(Tier::Thorough));
+    for (a, c) in [(true, false), (false, false), (false, true), (true, true)] {
+        v.extend(quick_conformance_scenarios(a, c));
+    }
+    for id in ["C19", "C17", "C07", "C10", "C04"] {
+        v.extend(extra_conformance(id, Tier::Thorough));
+    }
+    v
+}
+
+/// replay of a recorded real-daemon schedule (any check)
+pub fn replay_dbx(v: &serde_json::Value) -> Report {
+    let mut rep = Report::new("model_checking");
+    let name = v["case"]["scenario"].as_str().unwrap_or("").to_string();
+    let choices: Vec<usize> = serde_json::from_value(v["case"]["choices"].clone()).unwrap_or_default();
+    let Some(scn) = all_scenarios().into_iter().find(|s| s.name == name) else {
+        rep.machinery_errors.push(format!("the replay file names the scenario {:?}, which no check defines any more", name));
+        return rep;
+    };
+    let r = run_schedule(&scn, &choices);
+    for a in &r.acts {
+        println!("{}", a);
+    }
+    println!("left the transaction model: {:?}\nviolations: {:?}", r.divergence, r.violations);
+    for (clause, sig, detail) in r.violations {
+        rep.violations.push(Violation { clause: clause.clone(), signature: format!("{}|{}|{}", clause, scn.cfg.class(), sig), detail, replay: v["case"].clone() });
+    }
+    rep.coverage = json!({"states": r.steps.max(1), "transitions": r.steps.max(1), "traces_validated_against_impl": 1, "samples": [r.acts]});
+    rep
 }
 
 /// property-specific real-daemon batches run by the E1 checks in addition to `quick_conformance`:
@@ -193,6 +231,20 @@ pub fn extra_conformance(id: &str, tier: Tier) -> Vec<DScn> {
             e.empty_dst = true;
             v.push(e);
         }
+        "C04" => {
+            // the completing PDU arrives many times back to back (more copies than the command
+            // queue of the transaction holds)
+            for ack in [false, true] {
+                let mut c = cfg_base("conf");
+                c.ack = ack;
+                let mut s = single(&format!("conf {} size=17 + burst", c.class()), c, ack, 17, 1);
+                s.bursts = true;
+                s.dups = false;
+                s.overtake = false;
+                s.delay = false;
+                v.push(s);
+            }
+        }
         "C10" => {
             for (ack, side) in [(false, Side::S), (true, Side::S), (true, Side::R)] {
                 let mut c = cfg_base("conf");
@@ -214,19 +266,7 @@ pub fn c11(args: &Args) -> Report {
     let mut rep = Report::new("model_checking");
     if let Some(p) = &args.replay {
         let v: serde_json::Value = serde_json::from_str(&std::fs::read_to_string(p).expect("replay file")).unwrap();
-        let name = v["case"]["scenario"].as_str().unwrap_or("").to_string();
-        let choices: Vec<usize> = serde_json::from_value(v["case"]["choices"].clone()).unwrap_or_default();
-        let scn = c11_scenarios(Tier::Thorough).into_iter().chain(conformance_scenarios(Tier::Thorough)).find(|s| s.name == name).expect("scenario of the replay file");
-        let r = run_schedule(&scn, &choices);
-        for a in &r.acts {
-            println!("{}", a);
-        }
-        println!("divergence: {:?}\nviolations: {:?}", r.divergence, r.violations);
-        for (clause, sig, detail) in r.violations {
-            rep.violations.push(Violation { clause: clause.clone(), signature: format!("{}|{}|{}", clause, scn.cfg.class(), sig), detail, replay: v["case"].clone() });
-        }
-        rep.coverage = json!({"states": r.steps.max(1), "transitions": r.steps.max(1), "traces_validated_against_impl": 1, "samples": [r.acts]});
-        return rep;
+        return replay_dbx(&v);
     }
     // 1. the loop model itself (single transactions): a divergence here is a machinery problem
     let conf = run_conformance(conformance_scenarios(args.tier));
@@ -379,12 +419,7 @@ pub fn c11_scenarios(tier: Tier) -> Vec<DScn> {
 pub fn dbg(args: &Args) -> Report {
     let name = &args.extra[0];
     let want: Vec<String> = args.extra.get(1).map(|s| s.split(';').map(|x| x.trim().to_string()).filter(|x| !x.is_empty()).collect()).unwrap_or_default();
-    let scn = c11_scenarios(Tier::Thorough)
-        .into_iter()
-        .chain(conformance_scenarios(Tier::Thorough))
-        .chain(["C19", "C17", "C07", "C10"].into_iter().flat_map(|i| extra_conformance(i, Tier::Thorough)))
-        .find(|s| &s.name == name)
-        .expect("scenario");
+    let scn = all_scenarios().into_iter().find(|s| &s.name == name).expect("scenario");
     // translate action names into choice indices by running prefixes
     let mut choices: Vec<usize> = vec![];
     for w in &want {
